@@ -29,7 +29,7 @@ WARN_KNOBS = {
     "DDM": ("warning_scale", [0.5, 1, 1.5, 2], "smaller"),  # looser = smaller
     "EDDM": ("warning_thresh", [0.9, 0.95, 0.99, 1.0], "larger"),
     "STEPD": ("alpha_warning", [0.05, 0.2, 0.3, 0.6], "larger"),
-    "LinearFourRates": ("warning_level", [0.05, 0.1, 0.2, 0.4], "larger"),
+    "LinearFourRates": ("warning_level", [0.001, 0.01, 0.05, 0.1, 0.2, 0.4], "larger"),
 }
 
 
